@@ -15,7 +15,7 @@ fi
 (cd $WT && GOFLAGS=-mod=mod GOPROXY=off go build ./... 2>&1 | grep -v jemalloc | head -5)
 if [ -f "$D/demo/run.sh" ] && [ -z "$SKIP_DEMO" ]; then
   cp -r "$D/demo" $WT/.seed-demo
-  (cd $WT && GOFLAGS=-mod=mod GOPROXY=off bash .seed-demo/run.sh >/var/tmp/seedtry.$$.demo 2>&1); echo "demo exit with change: $?"
+  (cd $WT && GOFLAGS=-mod=mod GOPROXY=off bash .seed-demo/run.sh $WT >/var/tmp/seedtry.$$.demo 2>&1); echo "demo exit with change: $?"
   rm -rf $WT/.seed-demo $WT/verifdemo
 fi
 cd /verif && VERIF_REPO=$WT ./check $P --tier $TIER > /var/tmp/seedtry.$$.log 2>&1; rc=$?
